@@ -29,7 +29,7 @@ func init() {
 			"data signed = SIG RDATA less signature | message before the SIG was added, for queries and responses alike: RFC 2931 §3.1 additionally prepends the query for a response, which SIG.Sign cannot express and the property text does not ask for",
 			"altered octets: every octet of the original message (header included) and every octet of the SIG RDATA (signature included). Excluded: the 11 octets of the SIG RR's own header (owner, type, class, TTL, RDLENGTH), which RFC 2931 does not cover and the property does not name",
 			"bound on flips: all 8 single-bit flips of every octet for messages ≤ 1024 octets (thorough: ≤ 8192); for larger ones all 8 bits of the first 64 and last 64 octets of the original message and of every SIG RDATA octet, and one bit (bit number = offset mod 8) of every other octet. Truncation: every length from 12 to len-1, for every message. Header-count faults: each section count set to 0, 1, 0xffff, v-1, v+1",
-			"time: stable-second protocol — time.Now().Unix() is read before and after each SIG.Verify whose result depends on the window and the call is repeated while they differ; a window case is repeated from signing until the verification saw exactly the second the window was built around. Windows are within 300 s of the present; the 2106 wrap of the 32-bit clock is not enumerated",
+			"time: stable-second protocol — time.Now().Unix() is read before and after each SIG.Verify whose result depends on the window and the call is repeated while they differ; a window case is repeated from signing until the verification saw exactly the second the window was built around. Windows are within 300 s of the present; the 2106 wrap of the 32-bit clock is not enumerated. The fault sweeps (spaces tamper, keys, savings, reuse) do not depend on the clock: they sign with the fixed window 1700000000..2100000000 (2023-11-14 .. 2036-07-18)",
 			"a KEY whose owner name differs from the signer name only in ASCII case is the matching KEY (RFC 4343) and must verify; the key tag is a hint and is not compared",
 			"ECDSA signatures are randomized by crypto/ecdsa: the signature octets differ between runs, the verdicts do not",
 			"quick tier: the flip/truncation sweep over the ≈60 KiB message runs for RSASHA256, ECDSAP256SHA256 and ED25519; thorough adds RSASHA1, RSASHA512, ECDSAP384SHA384",
@@ -136,11 +136,10 @@ func c18RR(s string) dns.RR {
 type c18Msg struct {
 	name   string
 	desc   string
-	chunks int // the tamper sweep over this message is split in this many cases of c18ChunkW signed octets
 	build  func() *dns.Msg
 }
 
-const c18ChunkW = 512
+const c18ChunkW = 32
 
 func c18Query() *dns.Msg {
 	m := new(dns.Msg)
@@ -150,11 +149,12 @@ func c18Query() *dns.Msg {
 }
 
 func c18BigTXT(i, n int) dns.RR {
-	s := fmt.Sprintf("%04d-", i)
-	for len(s) < n {
-		s += string(rune('a' + (i+len(s))%26))
+	b := make([]byte, 0, n+8)
+	b = append(b, fmt.Sprintf("%04d-", i)...)
+	for len(b) < n {
+		b = append(b, byte('a'+(i+len(b))%26))
 	}
-	return &dns.TXT{Hdr: dns.RR_Header{Name: "big.example.org.", Rrtype: dns.TypeTXT, Class: dns.ClassINET, Ttl: 60}, Txt: []string{s[:n]}}
+	return &dns.TXT{Hdr: dns.RR_Header{Name: "big.example.org.", Rrtype: dns.TypeTXT, Class: dns.ClassINET, Ttl: 60}, Txt: []string{string(b[:n])}}
 }
 
 func c18AR(n int) func() *dns.Msg {
@@ -169,9 +169,9 @@ func c18AR(n int) func() *dns.Msg {
 }
 
 var c18Msgs = []c18Msg{
-	{"query", "bare query example.org. SOA (the shape TestSIG0 uses)", 2, c18Query},
-	{"header", "header only: all four sections empty", 2, func() *dns.Msg { m := new(dns.Msg); m.Id = 0xc018; m.Response = true; return m }},
-	{"reply3", "reply: question www.example.org. A + CNAME, A in answer + NS in authority, every name compressible", 2, func() *dns.Msg {
+	{"query", "bare query example.org. SOA (the shape TestSIG0 uses)", c18Query},
+	{"header", "header only: all four sections empty", func() *dns.Msg { m := new(dns.Msg); m.Id = 0xc018; m.Response = true; return m }},
+	{"reply3", "reply: question www.example.org. A + CNAME, A in answer + NS in authority, every name compressible", func() *dns.Msg {
 		m := new(dns.Msg)
 		m.SetQuestion("www.example.org.", dns.TypeA)
 		m.Id = 0xc018
@@ -180,28 +180,28 @@ var c18Msgs = []c18Msg{
 		m.Ns = []dns.RR{c18RR("example.org. 300 IN NS ns1.example.org.")}
 		return m
 	}},
-	{"opt", "query with an OPT record (DO, 4096, NSID option)", 2, func() *dns.Msg {
+	{"opt", "query with an OPT record (DO, 4096, NSID option)", func() *dns.Msg {
 		m := c18Query()
 		m.SetEdns0(4096, true)
 		o := m.IsEdns0()
 		o.Option = append(o.Option, &dns.EDNS0_NSID{Code: dns.EDNS0NSID, Nsid: "c0ffee"})
 		return m
 	}},
-	{"optrcode", "response with extended RCODE BADVERS carried in its OPT record", 2, func() *dns.Msg {
+	{"optrcode", "response with extended RCODE BADVERS carried in its OPT record", func() *dns.Msg {
 		m := c18Query()
 		m.Response = true
 		m.SetEdns0(1232, false)
 		m.Rcode = dns.RcodeBadVers
 		return m
 	}},
-	{"noquestion", "response with an empty question section and one answer", 2, func() *dns.Msg {
+	{"noquestion", "response with an empty question section and one answer", func() *dns.Msg {
 		m := new(dns.Msg)
 		m.Id = 0xc018
 		m.Response = true
 		m.Answer = []dns.RR{c18RR("example.org. 300 IN A 192.0.2.7")}
 		return m
 	}},
-	{"answer300", "query + 300 answer records, empty additional section (control for the ARCOUNT cases)", 18, func() *dns.Msg {
+	{"answer300", "query + 300 answer records, empty additional section (control for the ARCOUNT cases)", func() *dns.Msg {
 		m := c18Query()
 		m.Response = true
 		for i := 0; i < 300; i++ {
@@ -209,11 +209,11 @@ var c18Msgs = []c18Msg{
 		}
 		return m
 	}},
-	{"additional254", "query + 254 additional records (ARCOUNT 255 once signed)", 16, c18AR(254)},
-	{"additional255", "query + 255 additional records (ARCOUNT 256 once signed)", 16, c18AR(255)},
-	{"additional256", "query + 256 additional records (ARCOUNT 257 once signed)", 16, c18AR(256)},
-	{"additional257", "query + 257 additional records (ARCOUNT 258 once signed)", 16, c18AR(257)},
-	{"big60k", "≈60 KiB: query + 220 TXT records of 255 octets", 122, func() *dns.Msg {
+	{"additional254", "query + 254 additional records (ARCOUNT 255 once signed)", c18AR(254)},
+	{"additional255", "query + 255 additional records (ARCOUNT 256 once signed)", c18AR(255)},
+	{"additional256", "query + 256 additional records (ARCOUNT 257 once signed)", c18AR(256)},
+	{"additional257", "query + 257 additional records (ARCOUNT 258 once signed)", c18AR(257)},
+	{"big60k", "≈60 KiB: query + 220 TXT records of 255 octets", func() *dns.Msg {
 		m := new(dns.Msg)
 		m.SetQuestion("big.example.org.", dns.TypeTXT)
 		m.Id = 0xc018
@@ -321,6 +321,7 @@ type c18Signed struct {
 	sig     *dns.SIG
 	wireSig *dns.SIG // the SIG the receiver unpacks from out
 	loc     *rs.Sig
+	refOK   bool // the reference verified the signature
 }
 
 // c18SignAndCheck signs m and checks everything about the output that does not depend on the clock:
@@ -369,11 +370,16 @@ func c18SignAndCheck(r *fw.R, id string, a c18Alg, k *c18Key, m *dns.Msg, inc, e
 	}
 	s := &c18Signed{m: m, packed: packed, out: out, sig: sig}
 	loc, err := rs.Verify(out, k.ref, k.ownerWire)
-	if err != nil {
-		r.Fail("sign/reference-rejects", "%s: reference verification of the Sign output: %v; output %s", id, err, c18Hex(out))
+	if loc == nil {
+		r.Fail("sign/reference-rejects", "%s: reference cannot locate the SIG RR in the Sign output: %v; output %s", id, err, c18Hex(out))
 		return nil
 	}
 	s.loc = loc
+	s.refOK = err == nil
+	if err != nil {
+		// keep going: the library may still be self-consistent, and then the fault sweeps say more
+		r.Fail("sign/reference-rejects", "%s: reference verification of the Sign output: %v; output %s", id, err, c18Hex(out))
+	}
 	if !bytes.Equal(rs.Original(out, loc), packed) {
 		r.Fail("sign/output-octets", "%s: message before the SIG as reconstructed by the reference differs from Pack(m)", id)
 	}
@@ -407,6 +413,14 @@ func c18VerifyKey(orig int) string {
 
 // ---------------------------------------------------------------------------------------------
 // spaces
+
+// The fault sweeps and the key / reuse / savings spaces are made independent of the clock (and, for RSA and
+// Ed25519, reproducible to the octet) by a fixed window that contains the present with decades to spare:
+// 2023-11-14T22:13:20Z .. 2036-07-18T13:20:00Z. The window edges are the business of space "sign".
+const (
+	c18FixedInception  = 1700000000
+	c18FixedExpiration = 2100000000
+)
 
 type c18Window struct{ a, b int64 }
 
@@ -470,7 +484,7 @@ func c18Spaces(c *fw.Ctx) {
 										switch {
 										case pan != nil:
 											r.Fail("verify/panic-untampered", "%s: SIG.Verify (%s SIG) panicked: %v; buffer %s", id, which, pan, c18Hex(s.out))
-										case want && err != nil:
+										case want && err != nil && s.refOK:
 											r.Fail(c18VerifyKey(len(m.Extra)), "%s: now=%d inception=%d expiration=%d: SIG.Verify (%s SIG) of the untampered Sign output = %v although the reference verifies it; %d additional records before signing; buffer %s", id, t, inc, exp, which, err, len(m.Extra), c18Hex(s.out))
 										case !want && err == nil:
 											r.Fail("verify/outside-window-accepted", "%s: now=%d inception=%d expiration=%d: SIG.Verify (%s SIG) = nil outside the validity window", id, t, inc, exp, which)
@@ -526,13 +540,12 @@ func c18Spaces(c *fw.Ctx) {
 						if cb, err := m.Pack(); err == nil && len(cb) == 12+L+4+2+10+4 {
 							r.Nontrivial()
 						}
-						t0 := c18Now()
 						id := fmt.Sprintf("question+answer owner %q (wire length %d, compression saves %d octets) Compress=true alg=%s", name, L, L-2, a.name)
-						s := c18SignAndCheck(r, id, a, k, m, uint32(t0-300), uint32(t0+300))
+						s := c18SignAndCheck(r, id, a, k, m, c18FixedInception, c18FixedExpiration)
 						if s == nil {
 							return
 						}
-						if err, pan := c18Verify(s.sig, k.rr, s.out); err != nil || pan != nil {
+						if err, pan := c18Verify(s.sig, k.rr, s.out); (err != nil && s.refOK) || pan != nil {
 							r.Fail("verify/untampered-rejected", "%s: SIG.Verify of the untampered Sign output = %v (panic %v)", id, err, pan)
 						}
 						r.Sample(func() any { return id })
@@ -541,17 +554,25 @@ func c18Spaces(c *fw.Ctx) {
 			}
 		})
 
-	c.Space("tamper", "messages {"+c18MsgNames()+"} × Compress × algorithms, window ±300 s, split in chunks of "+fmt.Sprint(c18ChunkW)+" signed octets: single-bit flips of the original message and SIG RDATA octets (bound in assumptions), every truncation length ≥ 12, header-count faults; SIG.Verify with the receiver's SIG must return an error and never panic; non-trivial: the untampered buffer verified and ≥ 1 fault was applied", true,
+	c.Space("tamper", "messages {"+c18MsgNames()+"} × Compress × algorithms, fixed window 2023..2036, split in chunks of "+fmt.Sprint(c18ChunkW)+" signed octets: single-bit flips of the original message and SIG RDATA octets (bound in assumptions), every truncation length ≥ 12, header-count faults; SIG.Verify with the receiver's SIG must return an error and never panic; non-trivial: the untampered buffer verified and ≥ 1 fault was applied", true,
 		func(emit func(func(*fw.R))) {
 			for _, ms := range c18Msgs {
 				for _, compress := range []bool{false, true} {
+					// number of chunks: packed length + an upper bound of the SIG RR (11+18+name+signature ≤ 200)
+					pm := ms.build()
+					pm.Compress = compress
+					pb, err := pm.Pack()
+					if err != nil {
+						panic(err)
+					}
+					chunks := (len(pb) + 200 + c18ChunkW - 1) / c18ChunkW
 					for _, a := range c18Algs {
 						if ms.name == "big60k" && !a.quickBig && !c.Thorough {
 							continue
 						}
-						for chunk := 0; chunk < ms.chunks; chunk++ {
+						for chunk := 0; chunk < chunks; chunk++ {
 							ms, compress, a, chunk := ms, compress, a, chunk
-							emit(func(r *fw.R) { c18Tamper(r, ms, compress, a, chunk) })
+							emit(func(r *fw.R) { c18Tamper(r, ms, compress, a, chunk, chunks) })
 						}
 					}
 				}
@@ -580,9 +601,8 @@ func c18Spaces(c *fw.Ctx) {
 					a, other := a, other
 					emit(func(r *fw.R) {
 						k := c18LoadKey(a.file)
-						t0 := c18Now()
 						id := fmt.Sprintf("alg=%s second message %s", a.name, map[bool]string{false: "the same query", true: "header-only"}[other])
-						sig := c18NewSIG(a, k, k.rr.Hdr.Name, uint32(t0-300), uint32(t0+300))
+						sig := c18NewSIG(a, k, k.rr.Hdr.Name, c18FixedInception, c18FixedExpiration)
 						m1 := c18Query()
 						if _, err := sig.Sign(k.priv, m1); err != nil {
 							return // reported by space sign
@@ -619,22 +639,23 @@ func c18MsgNames() string {
 }
 
 // c18Tamper runs the fault sweep over the signed octets [chunk*W, (chunk+1)*W) of one signed message.
-func c18Tamper(r *fw.R, ms c18Msg, compress bool, a c18Alg, chunk int) {
+func c18Tamper(r *fw.R, ms c18Msg, compress bool, a c18Alg, chunk, chunks int) {
 	id := fmt.Sprintf("msg=%s Compress=%v alg=%s", ms.name, compress, a.name)
 	k := c18LoadKey(a.file)
 	m := ms.build()
 	m.Compress = compress
-	t0 := c18Now()
-	inc, exp := uint32(t0-300), uint32(t0+300)
-	// Sign/Verify failures of the untampered message are reported by space "sign" (same message, same
-	// window); a private R-less dry run is not possible, so failures are recorded here under the same keys.
+	inc, exp := uint32(c18FixedInception), uint32(c18FixedExpiration)
+	// Sign/Verify failures of the untampered message are also reported by space "sign" (same message);
+	// they are recorded here under the same keys.
 	s := c18SignAndCheck(r, id, a, k, m, inc, exp)
 	if s == nil || s.wireSig == nil {
 		r.Count("skipped: Sign failed (reported)", 1)
 		return
 	}
 	if err, pan := c18Verify(s.wireSig, k.rr, s.out); err != nil || pan != nil {
-		r.Fail(c18VerifyKey(len(m.Extra)), "%s: SIG.Verify of the untampered Sign output = %v (panic %v) although the reference verifies it; %d additional records before signing", id, err, pan, len(m.Extra))
+		if s.refOK || pan != nil {
+			r.Fail(c18VerifyKey(len(m.Extra)), "%s: SIG.Verify of the untampered Sign output = %v (panic %v) although the reference verifies it; %d additional records before signing", id, err, pan, len(m.Extra))
+		}
 		r.Count("skipped: untampered Verify failed (reported)", 1)
 		return
 	}
@@ -649,8 +670,8 @@ func c18Tamper(r *fw.R, ms c18Msg, compress bool, a c18Alg, chunk int) {
 	if hi > len(buf) {
 		hi = len(buf)
 	}
-	if chunk == ms.chunks-1 && hi < len(buf) {
-		r.Fail("internal/chunks", "%s: %d chunks of %d do not cover %d signed octets", id, ms.chunks, c18ChunkW, len(buf))
+	if chunk == chunks-1 && hi < len(buf) {
+		r.Fail("internal/chunks", "%s: %d chunks of %d do not cover %d signed octets", id, chunks, c18ChunkW, len(buf))
 		return
 	}
 	faults := int64(0)
@@ -671,19 +692,29 @@ func c18Tamper(r *fw.R, ms c18Msg, compress bool, a c18Alg, chunk int) {
 		}
 		// what a receiver that unpacks the tampered buffer would verify with
 		m2 := new(dns.Msg)
+		// (counters only for algorithms with deterministic signatures: whether a structurally damaged
+		// buffer still unpacks can depend on the signature octets, which crypto/ecdsa randomizes;
+		// with the fixed window every other octet is the same in every run)
+		det := a.num != dns.ECDSAP256SHA256 && a.num != dns.ECDSAP384SHA384
 		if m2.Unpack(b) != nil || len(m2.Extra) == 0 {
-			r.Count("tampered buffers without an unpackable SIG", 1)
+			if det {
+				r.Count("tampered buffers without an unpackable SIG (RSA, Ed25519 cases)", 1)
+			}
 			return
 		}
 		ws, ok := m2.Extra[len(m2.Extra)-1].(*dns.SIG)
 		if !ok {
-			r.Count("tampered buffers without an unpackable SIG", 1)
+			if det {
+				r.Count("tampered buffers without an unpackable SIG (RSA, Ed25519 cases)", 1)
+			}
 			return
 		}
 		if reflect.DeepEqual(ws, s.wireSig) {
 			return // the identical call was just made
 		}
-		r.Count("verifications with a SIG unpacked from the tampered buffer", 1)
+		if det {
+			r.Count("verifications with a different SIG unpacked from the tampered buffer (RSA, Ed25519 cases)", 1)
+		}
 		err, pan = c18Verify(ws, k.rr, b)
 		if pan != nil {
 			r.Fail("verify/panic-"+kind, "%s: %s, SIG unpacked from the tampered buffer: SIG.Verify panicked: %v; untampered buffer %s", id, describe(), pan, c18Hex(s.out))
@@ -744,9 +775,6 @@ func c18Tamper(r *fw.R, ms c18Msg, compress bool, a c18Alg, chunk int) {
 			}
 		}
 	}
-	if c18Now() > t0+280 {
-		r.Fail("internal/slow", "%s chunk %d: the case took so long that the ±300 s window may have closed", id, chunk)
-	}
 	if faults > 0 {
 		r.Nontrivial()
 	}
@@ -774,8 +802,7 @@ func c18Keys(r *fw.R, ms c18Msg, compress bool, a c18Alg) {
 	k := c18LoadKey(a.file)
 	m := ms.build()
 	m.Compress = compress
-	t0 := c18Now()
-	inc, exp := uint32(t0-300), uint32(t0+300)
+	inc, exp := uint32(c18FixedInception), uint32(c18FixedExpiration)
 	s := c18SignAndCheck(r, id, a, k, m, inc, exp)
 	if s == nil || s.wireSig == nil {
 		return
